@@ -272,6 +272,9 @@ def check_C12(ctx):
         os.remove(body)
         summ = harness(ctx, ["timing", "order"], cases_file=ocases, name="timing-order", timeout=3600)
         report_mismatches(ctx, summ, "timing lines decoded with [General] values other than those in effect when the line is read")
+    # the invariant Shape (strictly increasing, clamps) on real output far outside the model's time alphabet
+    summ = harness(ctx, ["timing", "shape", "--runs", "3000" if thorough else "400"], name="timing-shape", timeout=3600)
+    report_mismatches(ctx, summ, "a control-point list is not strictly increasing in time / violates a clamp")
     tcfg = dict(spec="TrSpec", invariants=["TrShape"], postcondition="Accepted",
                 constants=dict(Alpha="<-AlphaShape", Gens="<-GensTwo", MaxLines="0", MinLines="0", Emit="FALSE"))
     runs, lines = (40, 250) if thorough else (8, 150)
